@@ -72,7 +72,7 @@ def main():
         ran["existing_tests_pass"] = "FAILED" not in o3 and "failed" not in o3.replace("0 failed", "") and "test result: ok. 62 passed" in o3 and "test result: ok. 15 passed" in o3
         shutil.copy(os.path.join(src, "demo.rs"), os.path.join(WT, "tests", "seed_demo.rs"))
         rc4, o4 = sh("cargo test --offline %s --test seed_demo 2>&1 | tail -15" % demo_feat, cwd=WT)
-        ran["demo_fails_with_change"] = rc4 != 0 or "FAILED" in o4 or "panicked" in o4
+        ran["demo_fails_with_change"] = rc4 != 0 or "FAILED" in o4 or "panicked" in o4 or "error: test failed" in o4 or "SIGABRT" in o4
         ran["demo_output_with_change"] = o4[-600:]
         # without the change
         sh("git apply -R --whitespace=nowarn %s" % os.path.join(os.path.abspath(src), "patch.diff"), cwd=WT)
